@@ -407,6 +407,26 @@ def m_blank_elements(S, r):
     S[j] = '*'.join(f)
 
 
+def m_blank_component(S, r):
+    """one component of a composite blanked, the others kept (`HI*BK:317*:4280`); or a simple element given an empty first component"""
+    cands = [(j, k) for j in range(1, len(S)) for k, v in enumerate(_fields(S[j])) if k > 0 and ':' in v and v.strip(':')]
+    if cands and r.random() < 0.8:
+        j, k = r.choice(cands)
+        f = _fields(S[j])
+        c = f[k].split(':')
+        i = 0 if r.random() < 0.6 else r.randrange(len(c))
+        c[i] = r.choice(('', '', ' '))
+        f[k] = ':'.join(c)
+        S[j] = '*'.join(f)
+    else:
+        j = _pos(S, r)
+        f = _fields(S[j])
+        if len(f) > 1:
+            k = r.randrange(1, len(f))
+            f[k] = ':' + f[k]
+            S[j] = '*'.join(f)
+
+
 def m_leading_space(S, r):
     j = _pos(S, r, 0 if r.random() < 0.1 else 1)
     S[j] = r.choice((' ', '   ', ' \t', '\t')) + S[j]
@@ -587,7 +607,7 @@ MUTATIONS = [
     ('gs08-unknown', m_gs08_unknown), ('gs01-unknown', m_gs01_unknown), ('st01-st03-unknown', m_st01_unknown),
     ('bht02-unknown', m_bht02_unknown), ('non-ascii', m_non_ascii), ('control-char', m_control_char),
     ('markup-char', m_markup_char), ('alt-delimiters', m_alt_delimiters), ('delimiter-clash', m_delimiter_clash),
-    ('no-line-breaks', m_no_line_breaks), ('fault-values', m_fault_values),
+    ('no-line-breaks', m_no_line_breaks), ('fault-values', m_fault_values), ('blank-component', m_blank_component),
 ]
 MUT = dict(MUTATIONS)
 SEGMENT_LEVEL = [k for k, _ in MUTATIONS if k not in ('truncate', 'truncate-header', 'garbage-header', 'alt-delimiters',
@@ -671,6 +691,8 @@ DIRECTED = [
     ('ST-without-GS', HDR4 + 'ST*837*0001~SE*1*0001~IEA*0*000000001~'),
     ('segment-between-GS-and-ST', HDR4 + 'GS*HC*A*B*20200101*1200*1*X*004010X098A1~REF*1~ST*837*0001~SE*2*0001~GE*1*1~IEA*1*000000001~'),
     ('second-ISA-short', HDR4 + 'ISA*1~'), ('unknown-GS08', HDR4 + 'GS*HC*A*B*20200101*1200*1*X*009999~'),
+    ('830-second-interchange-00400', HDR4 + 'IEA*0*000000001~' + HDR4.replace('*00401*000000001', '*00400*000000002') +
+     'GS*PS*S*R*20200101*1200*1*X*004010~ST*830*0001~CTT*1~SE*3*0001~GE*1*1~IEA*1*000000002~'),
 ]
 
 
@@ -964,6 +986,9 @@ def run(tier):
         if key is not None:
             by_key.setdefault(key, []).append((-1, {'map': '-', 'mutation': 'directed:' + name}, entry, cfg, o[1] if o[0] == 'exc' else None, text))
     res.notes['directed_corpus'] = {'documents': len(DIRECTED), 'runs': ndirected}
+    # hypothesis EnvNested of doc_total_sharp_holds / doc_envelope_order, evaluated by the model on the loaded maps
+    from . import docnest
+    docnest.attach(res)
     sizes = [0, 0, 0, 0]
     reader_obs = []
     for idx, label, size, rows, bad, text, rd in results:
